@@ -89,6 +89,10 @@ def gen_perm_twice(r, n):
     for path in ["bin/probe.sh", "./bin/probe.sh", "bin/../bin/probe.sh"]:
         ops.append(f"ex.rel path={path}")
     # ... and through a symlinked directory followed by `..` (the kernel follows the link first)
+    # ... and a file directly in the working directory, with a namesake of another owner in $PATH (seed C18h: the path was
+    # cleaned to the bare name before the start, so the namesake ran)
+    for path in ["./top.sh", "bin/../top.sh", "./lnk.sh"]:
+        ops.append(f"ex.rel path={path} variant=cwdfile")
     ops.append("ex.rel path=current/../bin/probe.sh variant=bad")
     ops.append("ex.rel path=current/../bin/probe.sh variant=good")
     ops.append("ex.count")
@@ -113,7 +117,9 @@ def gen_cfg(r, n, exhaustive=False):
     return ops
 
 
-FAST_BEHS = ["exit0", "exit3", "exit3out", "killed", "notexec", "badformat", "vanish", "empty", "garbage", "huge"]
+FAST_BEHS = ["exit0", "exit3", "exit3out", "killed", "notexec", "badformat", "vanish", "empty", "garbage", "huge",
+             # cannot be started, and any attempt to look INTO the file to say why must not hang either (seed C19h)
+             "shebangself", "shebangpair", "fifo"]
 # behaviours that blocked the call before cmd.WaitDelay was set; now bounded by timeout + 200 ms
 HOLD_BEHS = ["sleep", "execsleep", "grandchild"]
 TIMEOUTS = [200, 500, 1000, 2000]
